@@ -6,6 +6,7 @@ package props
 import (
 	"bytes"
 	"fmt"
+	"io"
 	"reflect"
 	"strings"
 
@@ -51,6 +52,26 @@ type c12World struct {
 	outSnap  []string
 	dec      *json.Decoder
 	decSrc   *bytes.Reader
+	decFr    *json.Decoder // a second stream whose reader delivers exactly one document per Read
+}
+
+// framedReader returns one document per Read call (no separator buffered behind it), as a
+// message-framed transport does.
+type framedReader struct {
+	docs [][]byte
+}
+
+func (r *framedReader) Read(p []byte) (int, error) {
+	if len(r.docs) == 0 {
+		return 0, io.EOF
+	}
+	n := copy(p, r.docs[0])
+	if n < len(r.docs[0]) {
+		r.docs[0] = r.docs[0][n:]
+	} else {
+		r.docs = r.docs[1:]
+	}
+	return n, nil
 }
 
 func (w *c12World) input(s string) []byte {
@@ -170,6 +191,20 @@ func c12Calls() []c12Call {
 			w.keep("value decoded from the stream", s)
 			return fmt.Sprintf("%+v", *s) + errS(err)
 		}},
+		{"Decoder.Decode(next document of a stream that delivers one document per Read)", func(w *c12World) string {
+			if w.decFr == nil {
+				w.decFr = json.NewDecoder(&framedReader{docs: [][]byte{
+					[]byte(`{"a":"framed one","n":1.5,"q":"\"f-one\"","r":{"k":1},"b":"QUJD"}`),
+					[]byte(`{"a":"framed two, a little longer","n":22,"q":"\"f-two\"","r":[2],"b":"REVG"}`),
+					[]byte(`{"a":"three","n":3,"q":"\"3\"","r":3,"b":""}`),
+					[]byte(`{"a":"framed document number four","n":4e4,"q":"\"four\"","r":"4","b":"NA=="}`),
+				}})
+			}
+			s := new(c12S)
+			err := w.decFr.Decode(s)
+			w.keep("value decoded from the framed stream", s)
+			return fmt.Sprintf("%+v", *s) + errS(err)
+		}},
 		{"Decoder.Token(UseNumber)", func(w *c12World) string {
 			d := json.NewDecoder(bytes.NewReader(w.input(`["tokén", 12.50, {"key":"v"}]`)))
 			d.UseNumber()
@@ -281,7 +316,7 @@ func c12Histories(c *work.Ctx) {
 						return ch.Deviate(ar)
 					})
 					w := &c12World{}
-					streamCalls := 0
+					streamCalls := map[int]int{}
 					for step, k := range hist {
 						var got string
 						p, msg := util.Safe(func() { got = calls[k].run(w) })
@@ -301,9 +336,9 @@ func c12Histories(c *work.Ctx) {
 						// later results equal their cold results (the stream call is positional: compare only its first use)
 						isStream := strings.HasPrefix(calls[k].name, "Decoder.Decode(next")
 						if isStream {
-							streamCalls++
+							streamCalls[k]++
 						}
-						if (!isStream || streamCalls == 1) && got != cold[k] {
+						if (!isStream || streamCalls[k] == 1) && got != cold[k] {
 							c.Violation(fmt.Sprintf("result differs from the cold result : [%s]", calls[k].name), id+fmt.Sprintf(" pool choices %v", ch.Choices()),
 								fmt.Sprintf("step %d gives %s ; cold %s", step, clip([]byte(got)), clip([]byte(cold[k]))))
 							break
